@@ -21,6 +21,27 @@ func vSymText0(max int) []byte {
 	return b
 }
 
+// vSymTextL: a decoration payload that, with LONG > 0, may also be long —
+// LONG concrete bytes followed by one symbolic byte — so that any length
+// threshold below LONG+1 (identifier limits, 255/256, ...) is crossed.
+func vSymTextL(max int, allowEmpty bool) []byte {
+	long := vParam("LONG", 0)
+	if long > 0 && nondetBool() {
+		b := make([]byte, long+1)
+		for i := range b {
+			b[i] = 'x'
+		}
+		b[long] = nondetByte()
+		vAssume(b[long] != 0)
+		vReach("long-payload")
+		return b
+	}
+	if allowEmpty {
+		return vSymText0(max)
+	}
+	return vSymText(max)
+}
+
 func vSymText(max int) []byte {
 	b := nondetBytes(1 + vChoose(max))
 	vAssume(vNoNUL(b))
@@ -42,7 +63,7 @@ func VerifH17() {
 	conn := vNewConn(nil)
 	w := buffer.NewWriter(slog.Default(), conn)
 
-	msg := vSymText(2)
+	msg := vSymTextL(2, false)
 	err := errors.New(string(msg))
 	var sev, code, hint, detail, constraint, file, fn, line []byte
 	hasSrc := false
@@ -75,14 +96,14 @@ func VerifH17() {
 			}
 			err = psqlerr.WithSeverity(err, psqlerr.Severity(string(sev)))
 		case 3:
-			hint = vSymText0(2)
+			hint = vSymTextL(2, true)
 			err = psqlerr.WithHint(err, string(hint))
 		case 4:
-			detail = vSymText0(2)
+			detail = vSymTextL(2, true)
 			err = psqlerr.WithDetail(err, string(detail))
 		case 5:
-			file = vSymText(1)
-			fn = vSymText(1)
+			file = vSymTextL(1, false)
+			fn = vSymTextL(1, false)
 			nd := 1 + vChoose(3)
 			line = nondetBytes(nd)
 			ln := int32(0)
@@ -91,10 +112,13 @@ func VerifH17() {
 				ln = ln*10 + int32(line[k]-'0')
 			}
 			vAssume(vOr(nd == 1, line[0] != '0'))
+			if vParam("LONG", 0) > 0 && nondetBool() {
+				line, ln = []byte("2147483647"), 2147483647 // the largest line number
+			}
 			hasSrc = true
 			err = psqlerr.WithSource(err, string(file), ln, string(fn))
 		case 6:
-			constraint = vSymText0(2)
+			constraint = vSymTextL(2, true)
 			err = psqlerr.WithConstraintName(err, string(constraint))
 		case 7:
 			err = fmt.Errorf("w: %w", err)
